@@ -12,6 +12,8 @@ import Tumfl.Props.C13
 #print axioms Tumfl.Props.C08_string_wrap
 #print axioms Tumfl.Props.C08_wrap_progress
 #print axioms Tumfl.Props.C02_boundary
+#print axioms Tumfl.Props.C08_comment_wf
+#print axioms Tumfl.Props.C08_comment_text
 #print axioms Tumfl.Props.C11_roundtrip
 #print axioms Tumfl.Props.C11_emit_is_par
 #print axioms Tumfl.Props.C11_emit_roundtrip
